@@ -66,6 +66,45 @@ def run_monitor(work, obs_path):
     return viol, stats, len(lines)
 
 
+def chunk_run(work, tier, seed):
+    cfg = "ChunkCursor_quick.cfg" if tier == "quick" else "ChunkCursor.cfg"
+    rc, out, secs = tlc(work, "ChunkCursor.tla", cfg, workers=8, timeout=3000, heap="8g")
+    d, g = tlc_stats(out)
+    dv = tlc_violations(out) + tlc_errors(out)
+    design_violations = [{"cfg": cfg, "violated": dv or ["did not complete"]}] if (dv or d == 0 or "No error has been found" not in out) else []
+    cbin = build_harness("chunk")
+    cdir = os.path.join(work, "chunkrun")
+
+    def once(dirp):
+        drive([cbin, "-out", dirp, "-seed", str(seed), "-tier", tier], work, "search", timeout=1800)
+        shutil.copyfile(os.path.join(dirp, "obs.ndjson"), os.path.join(work, "obs.ndjson"))
+        rc, out, secs = tlc(work, "ChunkMonitor.tla", "ChunkMonitor.cfg", workers=1, timeout=900, heap="3g")
+        errs = tlc_errors(out)
+        if errs:
+            raise Infra("chunk monitor failed: %s\n%s" % (errs[:3], out[-2000:]))
+        m = re.search(r'<<"MONITOR-STATS", (".*")>>', out)
+        obs = {}
+        for line in open(os.path.join(dirp, "obs.ndjson")):
+            o = json.loads(line)
+            obs[o["id"]] = o
+        return monitor_report(out), (json.loads(json.loads(m.group(1))) if m else {}), obs
+
+    rep, stats, obs = once(cdir)
+    real = [v for v in rep["violations"] if not v["p"].startswith("DRIFT")]
+    drift = [v for v in rep["violations"] if v["p"].startswith("DRIFT")]
+    viol = []
+    if real:
+        rep2, _, _ = once(os.path.join(work, "chunkrerun"))
+        again = set((v["id"], v["p"]) for v in rep2["violations"])
+        for v in real:
+            o = obs[v["id"]]
+            viol.append({"pred": v["p"], "prop": v["p"][:3], "case_id": v["id"], "title": "multi-chunk %s candidates=%s" % (o["mode"], o["cands"]),
+                         "sig": {"pred": v["p"]}, "reproduced": (v["id"], v["p"]) in again, "observation": o})
+    return {"violations": viol, "design_violations": design_violations, "observations": len(obs), "stats": stats,
+            "drift": [{"id": v["id"], "mode": obs[v["id"]]["mode"], "cands": obs[v["id"]]["cands"], "reads": obs[v["id"]]["reads"]} for v in drift][:5],
+            "design": {"cfg": cfg, "states": d, "transitions": g, "secs": round(secs, 1)}}
+
+
 def compute(tier, seed):
     t0 = time.time()
     work = scratch_dir("search")
@@ -109,12 +148,18 @@ def compute(tier, seed):
                 slim = dict(o)
                 out_viol.append({"pred": v["p"], "prop": v["p"][:3], "case_id": v["id"], "title": "case %d" % v["id"],
                                  "sig": {"pred": v["p"]}, "reproduced": (v["id"], v["p"]) in again, "observation": slim})
+        # the block filter cursor on a file whose region spans several chunks: ChunkCursor.tla (design), cmd/chunk, ChunkMonitor.tla
+        chunk = chunk_run(work, tier, seed)
+        out_viol += chunk["violations"]
+        if chunk["design_violations"]:
+            design["violations"] = list(design["violations"]) + chunk["design_violations"]
         samples = []
         for i, line in enumerate(open(obs_path)):
             if i in (0, 7, 101):
                 o = json.loads(line)
                 samples.append({"case": o["case"], "res": o["res"], "blocks": len(o["blocks"])})
-        return {"design": design, "impl": {"cases": nobs, "stats": stats, "stdio_bytes": summary["stdio_bytes"],
+        return {"design": design, "chunk": {k: chunk[k] for k in ("observations", "stats", "drift", "design")},
+                "impl": {"cases": nobs, "stats": stats, "stdio_bytes": summary["stdio_bytes"],
                                            "harness_secs": round(hsecs, 1)},
                 "violations": out_viol, "samples": samples, "wall_s": round(time.time() - t0, 1)}
     finally:
@@ -155,12 +200,18 @@ def evidence(pid, tier, res):
     rule = ("cases are drawn by a seeded generator over the TLA+ catalogue (documents, atoms from the specification's "
             "entry sets, trees of depth <= 2 with nil/empty/unknown nodes, prefilter trees, flush groups, merges, "
             "tokenizer, minmax key set, compression/fpr/limit dimensions); non-trivial for %s = counted by "
-            "SearchMonitor.tla as '%s'" % (pid, NONTRIVIAL[pid]))
+            "SearchMonitor.tla as '%s' (for 'blocks' every case stores at least one block, so every case counts; "
+            "units_judged is the number of blocks read back and judged)" % (pid, NONTRIVIAL[pid]))
     cov = {
-        "evaluations": impl["cases"], "distinct_nontrivial": int(st.get(NONTRIVIAL[pid], 0)), "rule": rule,
+        "evaluations": impl["cases"], "distinct_nontrivial": min(int(st.get(NONTRIVIAL[pid], 0)), impl["cases"]), "rule": rule,
+        "units_judged": int(st.get(NONTRIVIAL[pid], 0)),
         "samples": res["samples"][:3],
         "monitor_predicates": PREDS[pid], "design_theorems": DESIGN_THEOREMS[pid], "design_run": des,
         "monitor_stats": st,
+        "multi_chunk": res.get("chunk"),
+        "drift_traces": [{"trace": d["id"], "program": "multi-chunk filter pass (%s, candidates %s)" % (d["mode"], d["cands"]),
+                          "explained": None, "events": len(d["reads"]), "first_unexplained": d["reads"][:3]}
+                         for d in (res.get("chunk") or {}).get("drift", [])],
         "summary": "%d cases judged by SearchMonitor.tla, %d design states" % (impl["cases"], des["states"]),
     }
     if LEVEL[pid] == "model_checking":
